@@ -14,7 +14,8 @@ ID = "C17"
 RULE = ("case = (golden test or generated Z80 program with IFUSED/IFNUSED/IFDEF, forward references, SET variables, "
         "macros, sections, listing controls and warnings; subset of report options, placement argv|ASCMD|@key file via ASCMD|@key file in "
         "argv, LANG in {C,de_DE,en_US}, run from another working directory, -o into a sub directory, -q on/off); "
-        "fixed cases: every test with a rotating option set so that every option and every pair class occurs; "
+        "fixed cases: every test with a rotating option set so that every option and every pair class occurs, and "
+        "every test with every single report option (complete test x option matrix); "
         "non-trivial = >= 2 report options or a non-argv placement or another language/cwd; distinct by "
         "(test, option set, placement, lang, cwd)")
 ASSUMPTIONS = [
@@ -43,7 +44,7 @@ LIST_OPTS = {"u", "C", "s", "I", "t", "LISTRADIX", "SPLITBYTE", "h"}
 
 
 def budget(tier):
-    return dict(examples=3000 if tier == "quick" else 30000, shards=16)
+    return dict(examples=1200 if tier == "quick" else 30000, shards=16)
 
 
 GEN_ITEMS = ["lab", "call", "set", "usevar", "ifused", "ifnused", "ifdef", "macro", "listing", "page", "title",
@@ -317,6 +318,17 @@ def fixed_cases(tier):
             ops.append(["L", None])
         out.append(dict(test=t, opts=ops, place=places[i % 4], lang=["C", "de_DE", "en_US"][i % 3], cwd=(i % 5 == 0),
                         outdir=(i % 4 == 1), quiet=(i % 3 != 0)))
+    # complete single-option coverage: every golden test with every report option on its own
+    phase = engine.seed_from_env() % 2
+    for i, t in enumerate(names):
+        for j, o in enumerate(OPTNAMES):
+            if tier == "quick" and (i + j) % 2 != phase and o not in ("h", "SPLITBYTE", "C", "A"):
+                continue      # quick: half of the matrix (rotating with the seed), the state-changing options always
+            arg = 255 if o == "t" else (8 if o == "LISTRADIX" else None)
+            ops = [[o, arg]]
+            if o in LIST_OPTS:
+                ops.append(["L", None])
+            out.append(dict(test=t, opts=ops, place="argv", lang="C", cwd=False, outdir=False, quiet=True))
     return out
 
 
